@@ -9,6 +9,13 @@ import numpy as np
 
 from ..oracles import refmesh as rm
 from ..monitor import repo_frame
+
+
+def mech(text):
+    """Mechanism key from a problem description: the words before the first coordinate / number."""
+    import re
+    t = re.split(r'[\(\[\d]', text, maxsplit=1)[0].strip().rstrip(':').strip()
+    return t[:60].replace(' ', '-') or 'unspecified'
 from .meshes import LockStep, RefineLog, random_grid
 
 # family of small initial meshes for the exhaustive part
@@ -47,8 +54,7 @@ def _judge(acc, focus, ls, label, cls, gmsh=False):
         if gmsh:
             bad += rm.check_gmsh(ls.mesh)
         for b in bad[:3]:
-            key = b.split(':')[0].split(' %')[0][:60]
-            acc.violation('mesh-invariant:' + key.replace(' ', '-'), b,
+            acc.violation('mesh-invariant:' + mech(b), b,
                           {'mesh': ls.spec, 'history': ls.history, 'state': label})
         return not bad
     # C10: neighbours against the geometric rule on the *actual* leaves
@@ -58,8 +64,7 @@ def _judge(acc, focus, ls, label, cls, gmsh=False):
     for k, v in stats.items():
         acc.seen('edge:' + k, v)
     for b in bad[:3]:
-        key = b.split(' at ')[0].split(':')[0][:50]
-        acc.violation('neighbours:' + key.replace(' ', '-'), b,
+        acc.violation('neighbours:' + mech(b), b,
                       {'mesh': ls.spec, 'history': ls.history, 'state': label})
     return not bad
 
@@ -252,7 +257,7 @@ def run_random(spec, acc, focus):
                         for k, v in stats.items():
                             acc.seen('edge:' + k, v)
                         for b in bad[:2]:
-                            acc.violation('neighbours:' + b.split(' at ')[0].split(':')[0][:50].replace(' ', '-'), b,
+                            acc.violation('neighbours:' + mech(b), b,
                                           {'mesh': ms, 'history': ls.history})
                 acc.case(None, 'random:' + ('glued' if ls.glued else 'open'))
             acc.distinct.add('R%d-%d' % (spec['rseed'], h))
@@ -297,6 +302,8 @@ def plan(tier, seed):
                     specs.append({'name': 'bfs-%s-%d%d-%d' % (name, i, ax, k), 'mode': 'bfs', 'mesh': name,
                                   'depth': depth, 'prefix': [['b', i, ax]], 'mod': [k, K],
                                   'check_root': (i, ax, k) == (0, 0, 0)})
+    for k in range(len(DEEP)):
+        specs.append({'name': 'deep-%d' % k, 'mode': 'deep', 'deep': k})
     specs.append({'name': 'suite-mesh-tests', 'mode': 'suite', 'files': ['src/mesh_test.py', 'src/error_estimator_test.py']})
     n_r = 16 if tier == 'quick' else 64
     for k in range(n_r):
@@ -305,7 +312,69 @@ def plan(tier, seed):
     return specs
 
 
+DEEP = [
+    # (mesh spec, follow: which leaf to bisect next, axis, depth)
+    ({'space_grid': [0, 1, 2, 3], 'time_grid': [0, 1], 'glued': True}, 'seam-last-top', 0, 24),
+    ({'space_grid': [0, 1, 2, 3], 'time_grid': [0, 1], 'glued': True}, 'seam-first-top', 0, 24),
+    ({'space_grid': [0, 1, 2], 'time_grid': [0, 1000, 1001], 'glued': True}, 'seam-last-top', 0, 14),
+    ({'space_grid': [0, 1, 2], 'time_grid': [0, 1000, 1001], 'glued': True}, 'seam-first-bottom', 0, 14),
+    ({'space_grid': [0, 1, 2], 'time_grid': [0, 1], 'glued': True}, 'seam-last-top', 1, 26),
+    ({'space_grid': [0, 1, 2], 'time_grid': [0, 1], 'glued': True}, 'seam-first-top', 1, 26),
+    ({'space_grid': [0, 1, 2], 'time_grid': [0, 1], 'glued': False}, 'interior-top', 1, 26),
+    ({'space_grid': [100, 101, 102.5], 'time_grid': [50, 50.25], 'glued': True}, 'seam-last-top', 0, 16),
+    ({'curve': 'Circle'}, 'seam-last-top', 0, 22),
+    ({'curve': 'UnitSquare', 'time_grid': [0, 0.5, 1]}, 'seam-first-bottom', 0, 22),
+    ({'curve': 'LShape'}, 'seam-last-top', 1, 22),
+]
+
+
+def run_deep(spec, acc, focus):
+    """Deep one-sided refinement at the seam / at an interior line / far from the origin: levels beyond what random histories reach."""
+    ms, follow, ax, depth = DEEP[spec['deep']]
+    log = RefineLog()
+    try:
+        ls = LockStep(ms)
+        x_min, x_max = ls.domain[2], ls.domain[3]
+        for step in range(depth):
+            leaves = ls.leaves()
+            if follow.startswith('seam-last'):
+                cand = [e for e in leaves if e.space_interval[1] == x_max]
+            elif follow.startswith('seam-first'):
+                cand = [e for e in leaves if e.space_interval[0] == x_min]
+            else:
+                mid = ls.space_grid[1]
+                cand = [e for e in leaves if e.space_interval[1] == mid]
+            key = (lambda e: e.time_interval[1]) if follow.endswith('top') else (lambda e: -e.time_interval[0])
+            best = max(cand, key=key)
+            # among those at the extreme time, the smallest one
+            ext = [e for e in cand if key(e) == key(best)]
+            e = min(ext, key=lambda q: (q.h_t, q.h_x))
+            if e.h_t < 1e-9 or e.h_x < 1e-9:
+                break
+            try:
+                ls.apply(('b', leaves.index(e), ax))
+            except (Exception, RecursionError) as ex:
+                fr = repo_frame(ex)
+                if fr is None:
+                    raise
+                if focus == 'C02':
+                    acc.violation('mesh-op-raised:%s:%s' % (fr[0], type(ex).__name__), 'deep bisection raised %s at %s:%d' % (type(ex).__name__, fr[1], fr[2]),
+                                  {'mesh': ms, 'history': ls.history})
+                break
+            log.take()
+            ok = _judge(acc, focus, ls, 'deep%d' % step, 'deep', gmsh=(step == depth - 1))
+            acc.case('deep|%d|%d' % (spec['deep'], step), 'deep:' + follow)
+            if not ok:
+                break
+        acc.worst_of('max_level', max(max(e.levels) for e in ls.mesh.leaf_elements))
+        acc.sample({'mesh': ms, 'follow': follow, 'axis': ax, 'steps': len(ls.history), 'max_level': max(max(e.levels) for e in ls.mesh.leaf_elements)}, 'deep%d' % spec['deep'])
+    finally:
+        log.close()
+
+
 def run_shard(spec, acc, focus):
+    if spec['mode'] == 'deep':
+        return run_deep(spec, acc, focus)
     if spec['mode'] == 'suite':
         from .suite import run_suite
         return run_suite(acc, focus, spec['files'])
